@@ -16,7 +16,8 @@ import (
 var verifAnyRe = regexp.MustCompile(`x+y?[0-9]`)
 
 func verifLineFilter(op logql.BinOp, needle string) Processor {
-	p, err := buildLineFilter(&logql.LineFilter{Op: op, Value: needle, Re: verifAnyRe})
+	// through the pipeline constructor, as queries are built
+	p, err := BuildPipeline(&logql.LineFilter{Op: op, Value: needle, Re: verifAnyRe})
 	vsymAssert(err == nil, "line filter builds")
 	return p
 }
